@@ -76,7 +76,8 @@ def do_event(W, ev):
 
 
 # ---- catalogues --------------------------------------------------------------------------------
-ARG_FAULTS = [b"-1", b"0", b"12345678901234567890", b"abc", b"", b"1.5", b"0x10", "１２".encode(), b"\xff\xfe"]
+ARG_FAULTS = [b"-1", b"0", b"12345678901234567890", b"abc", b"", b"1.5", b"0x10", "１２".encode(), b"\xff\xfe",
+              b"-128", b"32768", b"65536"]       # the ends of the 8/16-bit ranges the values are packed into later
 OCT = [0x00, 0x7f, 0x80, 0xff]
 
 
